@@ -4,7 +4,14 @@
 // This might be optimised in the future.
 package bytecode
 
-import "fmt"
+import (
+	"errors"
+	"fmt"
+)
+
+// ErrOperandRange is the panic value of the encoders when an address, offset
+// or count does not fit the instruction or function value format.
+var ErrOperandRange = errors.New("operand out of range")
 
 // Type is a fixed size 64 bit instruction.
 type Type uint64
@@ -154,8 +161,9 @@ func New(op OpCode) Type {
 // srcAddr specifies the source address, or immediate value for instruction
 // encoded integers.
 func EncodeSrc(srcsel int, src uint64, srcAddr int) Type {
-	if srcAddr <= -(1<<SrcChanWidth) || srcAddr >= (1<<SrcChanWidth) {
-		panic("srcAddr out of range")
+	// the operand field is decoded as a signed SrcChanWidth bit number
+	if srcAddr < -(1<<(SrcChanWidth-1)) || srcAddr >= (1<<(SrcChanWidth-1)) {
+		panic(ErrOperandRange)
 	}
 	addr := uint64(srcAddr)
 	switch srcsel {
